@@ -31,7 +31,13 @@ areas_c={
  'B5':"correct process-wide caching: cache things that are pure functions of their inputs across calls in one process (for example the GF(2^16) parity matrix per (data shards, parity shards), CRC window tables per slice size) behind a mutex, with complete cache keys, so that repeated operations in one process get faster but results never change.",
  'B6':"par2 Repair robustness that no property forbids: when Repair has to rewrite several files, order the writes so that a file whose current content holds slices needed by another not-yet-written file is written later, and keep everything else (hash checks before every write, the list of written files, error behaviour) exactly as it is.",
 }
-areas = areas_c if suffix >= 'c' else (areas_b if suffix >= 'b' else areas_a)
+areas_d={
+ 'B1':"par2 Verify/Repair: read the data files CONCURRENTLY (a bounded number of goroutines calling fileIO.ReadFile and scanning/hashing in parallel), correctly: results, counts, delegate callback ORDER and CONTENT per file, and the error returned (the error of the first file in recovery-set order that failed) must be exactly what the sequential code produces; on an error no goroutine may be left running when the call returns.",
+ 'B2':"par2 Create: write the recovery volume files CONCURRENTLY after the index file (bounded goroutines calling fileIO.WriteFile), correctly: the same files with the same bytes, every write error reported (return the error of the lowest-numbered volume that failed), delegate callbacks delivered from one goroutine in volume order, nothing left running when Write returns.",
+ 'B3':"par1 Verify/Repair: probe and read the parity volume files CONCURRENTLY (bounded goroutines), correctly: same volumes accepted, same counts, same error precedence as the sequential loop (the lowest-numbered failing volume decides), delegate callbacks in volume order from one goroutine.",
+ 'B4':"par2 Create: hash and checksum the input files CONCURRENTLY (file MD5s, 16k hashes, slice CRC/MD5 pairs computed by a worker pool, one file per task), correctly: byte-identical output for every goroutine count, same errors, same delegate order.",
+}
+areas = areas_d if suffix >= 'd' else (areas_c if suffix >= 'c' else (areas_b if suffix >= 'b' else areas_a))
 T='''You are helping test a verification effort for the Go project akalin/gopar (a Go implementation of the PAR1 and PAR2 parity-archive formats with its own GF(2^16) arithmetic, Reed-Solomon coder and a `par` CLI). You have your own scratch git worktree of the repository at {wt} . Work ONLY inside {wt} (source edits) and {out} (your deliverables). Never read or write anything under /repo or /verif.
 
 Every shell call needs: export GOFLAGS=-mod=mod GOPROXY=off GOSUMDB=off GOTOOLCHAIN=local   (no network; default `go` is 1.23). Run the test suite with: cd {wt} && go test -count=1 ./...
